@@ -1058,6 +1058,32 @@ def partial_trace_to_operator(mk, L, keep, rescale, cyclic, kind):
     mk.eq("state untouched", _flat(vdense(a)), va)
 
 
+_PTC = [{"L": L, "where": w, "_tiers": _Q if (L == 3 and w in ((1,), (1, 0), (0, 2), (2, 0))) else _T}
+        for L, ws in ((3, ((1,), (0, 1), (1, 0), (0, 2), (2, 0), (2, 1), (1, 2))), (4, ((3, 1), (1, 3), (2, 0, 3), (0, 2, 3))))
+        for w in ws]
+
+
+@obligation(PROP, params=_PTC, rounds=2, timeout_s=400, wall_s=300, max_rows=60000)
+def partial_trace_dense_canonical(mk, L, where):
+    """partial_trace_to_dense_canonical(where) / local_expectation_canonical(G, where): the reduced state over the requested
+    sites IN THE ORDER GIVEN (ascending or not) equals the dense partial trace; tr(rho G) consumers agree"""
+    mk.encodes(c1.MatrixProductState.partial_trace_to_dense_canonical, c1.MatrixProductState.local_expectation_canonical,
+               c1.TensorNetwork1DFlat.canonicalize)
+    a, Ar = sym_mps(mk, "A", L, 2, None, False, "real")
+    va = _flat(raw_vec(Ar, False))
+    want = reduced_state_ref(va, (2,) * L, tuple(where))
+    rho = a.copy().partial_trace_to_dense_canonical(where, normalized=False)
+    rho = np.asarray(rho)
+    mk.same(f"partial_trace_to_dense_canonical{where}: a square matrix over the requested sites", tuple(rho.shape), tuple(want.shape))
+    mk.eq(f"partial_trace_to_dense_canonical{where} == Tr_env |psi><psi| (rows / columns in the requested site order)", rho, want)
+    G = mk.array("G", want.shape, "real")
+    val = a.copy().local_expectation_canonical(G, where, normalized=False)
+    mk.eq(f"local_expectation_canonical(G, {where}) == <psi|G on {where}|psi>", val, inner(va, ref.matmul(ref.embed(G, [2] * L, where), va)))
+    b = a.copy()
+    b.partial_trace_to_dense_canonical(where, normalized=False)
+    mk.eq("the state's value is not changed by the query (gauge only)", _flat(vdense(b)), va)
+
+
 # ---------------------------------------------------------------------- bipartite Schmidt state
 
 def _stub_syms(prefix):
@@ -1646,24 +1672,26 @@ def compress_iterative_numeric(mk, method):
 
 _OPTS = []
 for m_ in _DIRECT:
-    for o_ in ("canonize=False", "normalize", "inplace", "permute=plr", "max_bond=2", "max_bond=2,cutoff_mode=rel", "site_tags"):
+    for o_ in ("canonize=False", "normalize", "normalize,sweep_reverse", "inplace", "permute=plr", "max_bond=2", "max_bond=2,cutoff_mode=rel", "site_tags"):
         if m_ == "dm" and (o_ == "canonize=False" or o_.startswith("max_bond")):
             # canonize is a dummy argument of dm; with a cap, dm keeps the leading eigenvectors of a rank-deficient reduced
             # density matrix: exactness then rests on the discarded eigenvalues being zero, which is not a consequence the
             # certificate search can derive from the eigh contract (covered numerically by compress_iterative_numeric-like runs)
             continue
-        _OPTS.append({"method": m_, "option": o_, "_tiers": _Q if (m_ == "direct" and o_ in ("normalize", "inplace", "max_bond=2")) else _T})
+        _OPTS.append({"method": m_, "option": o_, "_tiers": _Q if ((m_ == "direct" and o_ in ("normalize", "inplace", "max_bond=2"))
+                                                                   or (m_ in ("direct", "zipup", "dm") and o_ == "normalize,sweep_reverse")) else _T})
 
 
 @obligation(PROP, params=_OPTS, rounds=2, rounds2=3, timeout_s=600, max_rows=60000, wall_s=500)
 def compress_options(mk, method, option):
     """documented options of tensor_network_1d_compress on a bond-2 state, nothing truncated"""
     mk.encodes(cp.tensor_network_1d_compress, cp._TN1D_COMPRESS_METHODS[method], cp._form_final_tn_from_tensor_sequence, cp.possibly_permute_)
-    L = 2 if option == "normalize" else 3       # (the proportionality certificate is too large for L = 3)
+    L = 2 if option.startswith("normalize") else 3       # (the proportionality certificate is too large for L = 3)
     a, Ar = sym_mps(mk, "A", L, 2, None, False, "real")
     va = raw_vec(Ar)
     out = tuple(f"k{i}" for i in range(L))
     kw = {"canonize=False": {"canonize": False}, "normalize": {"normalize": True}, "inplace": {"inplace": True},
+          "normalize,sweep_reverse": {"normalize": True, "sweep_reverse": True},
           "permute=plr": {"permute_arrays": "plr"}, "max_bond=2": {"max_bond": 2}, "max_bond=2,cutoff_mode=rel": {"max_bond": 2, "cutoff_mode": "rel"},
           "site_tags": {"site_tags": tuple(f"I{i}" for i in reversed(range(L)))}}[option]
     tn = a.copy()
@@ -1677,7 +1705,7 @@ def compress_options(mk, method, option):
         stubs.OPTIONS["eigh_spectrum"] = "real"
     tag = f"{method}({option})"
     vc = vdense(c)
-    if option == "normalize":
+    if option.startswith("normalize"):
         n2 = inner(va, va)
         fa, fc = _flat(va), _flat(vc)
         if mk.sym:
@@ -1716,4 +1744,4 @@ def compress_options(mk, method, option):
     if option.startswith("max_bond"):
         mk.same(f"{tag}: cap respected", c.max_bond() <= 2, True)
     if option != "canonize=False":
-        canonical_goals(mk, tag, c, "left" if option == "site_tags" else "right", L)
+        canonical_goals(mk, tag, c, "left" if option in ("site_tags", "normalize,sweep_reverse") else "right", L)
